@@ -1,10 +1,13 @@
 // C13: the real compound-file reader on a file given as hex, through the hook
-// calamine::verif_hooks::cfb::{cfb_new, CfbHandle} (= Cfb::new, Cfb::has_directory,
-// Cfb::get_stream on a Cursor whose position is kept between calls).
-//   args[0] = hex of the file, args[1] = fuel (model side only), args[2] = ops, ';'-separated:
-//       h:<name hex> (has_directory) | g:<name hex> (get_stream) | n (directory names)
+// calamine::verif_hooks::cfb::{cfb_new, CfbHandle} (= Cfb::new, Cfb::has_directory, Cfb::find,
+// Cfb::children, Cfb::get_stream on a Cursor whose position is kept between calls).
+//   args[0] = hex of the file, args[1] = fuel (model side only), args[2] = ops, ';'-separated;
+//   a <path> is '/'-separated <name hex> ('-' = the empty name):
+//       h:<name hex> (has_directory) | g:<path> (get_stream) | p:<path> (find(path).is_some())
+//       | c:<id> (children) | n (directory names)
 // Answer: new=<ok | err:<class> | panic | alloc>[;<answer per op>…]; the op answers are
-//   0/1 | ok:<hex> / err:<class> / panic / alloc | n:<name hex>,…   (processing stops at a panic and at an error other than notfound).
+//   0/1 | ok:<hex> / err:<class> / panic / alloc | 0/1 | c:<id>,… | n:<name hex>,…
+//   (processing stops at a panic and at an error other than notfound).
 use crate::util::{hexstr, unhex};
 use std::panic::{catch_unwind, AssertUnwindSafe};
 use std::sync::atomic::Ordering;
@@ -63,11 +66,22 @@ pub fn run(args: &[&str]) -> String {
             continue;
         }
         let (kind, nh) = op.split_at(2.min(op.len()));
-        let name = String::from_utf8(unhex(if nh == "-" { "" } else { nh })).unwrap_or_default();
+        let one = |h: &str| String::from_utf8(unhex(if h == "-" { "" } else { h })).unwrap_or_default();
+        let names: Vec<String> = if nh.is_empty() { Vec::new() } else { nh.split('/').map(one).collect() };
+        let path: Vec<&str> = names.iter().map(|s| s.as_str()).collect();
         match kind {
-            "h:" => out.push(if h.has_directory(&name) { "1" } else { "0" }.to_string()),
+            "h:" => out.push(if h.has_directory(&one(nh)) { "1" } else { "0" }.to_string()),
+            "p:" => out.push(if h.has_path(&path) { "1" } else { "0" }.to_string()),
+            "c:" => {
+                let ids: Vec<String> = h
+                    .children(nh.parse::<usize>().unwrap_or(usize::MAX))
+                    .iter()
+                    .map(|i| i.to_string())
+                    .collect();
+                out.push(format!("c:{}", ids.join(",")));
+            }
             "g:" => {
-                let r = catch_unwind(AssertUnwindSafe(|| h.get_stream(&name)));
+                let r = catch_unwind(AssertUnwindSafe(|| h.get_stream_path(&path)));
                 match r {
                     Err(_) => {
                         out.push(panic_kind().to_string());
